@@ -1,5 +1,5 @@
 From Coq Require Import Extraction ExtrOcamlBasic QArith.
-From BCT Require Import Model.Between.
+From BCT Require Import Model.Between Model.BetweenQ.
 Extraction Language OCaml.
 (* coqc runs with cwd = /verif/coq *)
-Extraction "../ocaml/gen/c08_model.ml" run_bc_bin run_bc_wei run_ebc_bin run_ebc_wei run_search run_spec Qred Z.add.
+Extraction "../ocaml/gen/c08_model.ml" run_bc_bin run_bc_wei run_ebc_bin run_ebc_wei run_search run_spec run_bc_weiQ run_ebc_weiQ Qred Z.add.
